@@ -215,7 +215,8 @@ def np_polygamma(m, x, out=None):
     This is changed because scipy.special.polygamma does not have 'out'.
     """
     if out is None:
-        out = np.copy(x)
+        # (not np.copy(x): an integer argument would truncate the result)
+        return np.array(scipy.special.polygamma(m, x))
     out[...] = scipy.special.polygamma(m, x)
     return out
 
